@@ -38,37 +38,11 @@ def strip_cache_fields(o):
     return o
 
 
-PS_HEADER = """From Mkdb Require Import Model.CaseLib Spec.PStoreSpec.
+PS_HEADER = """From Mkdb Require Import Model.CaseLib Spec.PStoreSpec Spec.PStoreObs.
 Open Scope N_scope.
-Definition pcase := (nat * list hop * list pout)%type.
-(* object identities are not compared: which fetch is a cache miss depends on the (arbitrary) order
-   in which a flush visits dirty pages; contents and refusals are *)
-Definition pout_eqb (a b : pout) : bool :=
-  match a, b with
-  | PObj _ c, PObj _ c' => N.eqb c c'
-  | PRefused, PRefused | PUnit, PUnit => true
-  | _, _ => false
-  end.
-Definition in_discipline (c : pcase) : bool :=
-  let '(cap, ops, _) := c in ok_run (ps_init cap) [] (fst (hrun (ps_init cap) [] ops)).
-Definition ps_model_agrees (c : pcase) : bool :=
-  let '(cap, ops, obs) := c in
-  negb (in_discipline c) || list_eqb pout_eqb (snd (hrun (ps_init cap) [] ops)) obs.
-(* the property on the observed behaviour: every fetch returns what the unbounded reference holds *)
-Fixpoint href_ok (m : amap) (ops : list hop) (obs : list pout) : bool :=
-  match ops, obs with
-  | [], [] => true
-  | op :: r, o :: ro =>
-      match op, o with
-      | HFetch k, PObj _ c => N.eqb c (ref_get k m)
-      | _, _ => true
-      end &&
-      href_ok (match op with HAlloc k c => aset k c m | HModify k c => aset k c m | _ => m end) r ro
-  | _, _ => false
-  end.
-Definition ps_spec (c : pcase) : bool :=
-  let '(cap, ops, obs) := c in negb (in_discipline c) || href_ok [] ops obs.
 """
+# pcase, pout_eqb, in_discipline, ps_model_agrees, href_ok, ps_spec: coq/Spec/PStoreObs.v (the theorem
+# C16_agreement_implies_acceptance of Properties/C16.v is about exactly these functions)
 
 
 def pstore_cases(rng, n):
